@@ -101,7 +101,11 @@ pub static ERRTEXT: std::sync::atomic::AtomicBool = std::sync::atomic::AtomicBoo
 
 pub fn err_out<E: std::fmt::Display>(e: &E) -> String {
     if ERRTEXT.load(std::sync::atomic::Ordering::Relaxed) {
-        format!("err msg={:016x}", fnv64(format!("{}", e).as_bytes()))
+        let text = format!("{}", e);
+        if std::env::var("AXH_ERRFULL").is_ok() {
+            eprintln!("ERRTEXT {:016x}: {}", fnv64(text.as_bytes()), text.replace('\n', " | "));
+        }
+        format!("err msg={:016x}", fnv64(text.as_bytes()))
     } else {
         "err".into()
     }
